@@ -34,8 +34,11 @@ def grid_points(c, upto):
 
 
 @st.composite
-def spec_st(draw):
-    spec = draw(st.one_of(G.dag_spec(), G.dag_spec(), G.ring_spec(modes=["suff", "suff_split", "suff_multi", "dpush"])))
+def spec_st(draw, deep=False):
+    if deep:
+        spec = draw(st.one_of(G.dag_spec(), G.dag_spec(max_models=7, max_chain=4), G.ring_spec(modes=["suff", "suff_split", "suff_multi", "dpush"], max_n=7)))
+    else:
+        spec = draw(st.one_of(G.dag_spec(), G.dag_spec(), G.ring_spec(modes=["suff", "suff_split", "suff_multi", "dpush"])))
     models = [c for c in spec["comps"] if c["kind"] == "model"]
     mode = draw(st.sampled_from(["grid", "off", "start", "late", "free", "free"]))
     start = min(c["start"] for c in models)
@@ -85,4 +88,4 @@ def check(spec, ctx):
 
 
 def parts():
-    return [Part("compositions", check, strategy=spec_st(), budget={"quick": 1400, "thorough": 80000})]
+    return [Part("compositions", check, strategy=spec_st(), strategy_thorough=spec_st(deep=True), budget={"quick": 1400, "thorough": 80000})]
